@@ -1,6 +1,5 @@
 """CSS matcher."""
 from __future__ import annotations
-from datetime import datetime
 from . import util
 import re
 from . import css_types as ct
@@ -448,9 +447,12 @@ class Inputs:
     def validate_week(year: int, week: int) -> bool:
         """Validate week."""
 
-        max_week = datetime.strptime(f"{12}-{31}-{year}", "%m-%d-%Y").isocalendar()[1]
-        if max_week == 1:
-            max_week = 53
+        # Weekday of 31 December (Monday is 1) and, from it, its ISO 8601 week number, computed
+        # arithmetically so that years of any length can be validated.
+        dec31 = (year + year // 4 - year // 100 + year // 400) % 7 or 7
+        leap = ((year % 4 == 0) and (year % 100 != 0)) or (year % 400 == 0)
+        # As before, week 53 is accepted when 31 December lies in week 53 or in week 1 of the next year.
+        max_week = 53 if dec31 <= 4 or (dec31 == 5 and leap) else 52
         return 1 <= week <= max_week
 
     @staticmethod
